@@ -68,6 +68,11 @@ let eval (op : string) (args : sx list) : sx list =
     (match open_entry_tab (z_of_sx hsz) (pairs htab) (pairs itab) (bytes_of_sx rsum) (bytes_of_sx dsum) (bytes_of_sx f) with
      | Some d -> [A "ok"; sx_of_bytes d]
      | None -> [A "none"])
+  | "fasta_format", [d; p] -> [A "ok"; sx_of_bytes (fasta_format (bytes_of_sx d) (bytes_of_sx p))]
+  | "fasta_scan", [inp] ->
+    sx_of_out (fun (recs, clean) ->
+        [L (List.map (fun (d, p) -> L [sx_of_bytes d; sx_of_bytes p]) recs); sx_of_bool clean])
+      (scan_fasta (bytes_of_sx inp))
   | _ -> [A "unknown-op"]
 
 let () =
